@@ -557,6 +557,10 @@ func (self Node) Index(i int) (v Node) {
 	}
 
 	s, e = it.Next(UseNativeSkipForGet)
+	if it.Err != nil {
+		// NOTICE: the declared size may exceed the elements the buffer holds
+		return errNode(meta.ErrRead, "", it.Err)
+	}
 	v = self.slice(s, e, self.et)
 ret:
 	// it.Recycle()
